@@ -10,19 +10,21 @@ open Hv.Migrate
 
 def triYes (s : String) : Bool := s == "yes"
 
-def parseFolder (s : String) : Folder :=
+def parseFolder (s : String) : Folder String :=
   ((s.splitOn ";").filter (· ≠ "")).map fun f =>
     match f.splitOn ":" with
     | [nm, segs] =>
       (nm, ((segs.splitOn ",").filter (· ≠ "")).map fun kv =>
         match kv.splitOn "=" with
-        | [k, h] => ({ key := k, data := h } : Seg)
+        | [k, h] => ({ key := k, data := h } : Seg String)
         | _ => { key := kv, data := "" })
     | _ => (f, [])
 
 def parseFault (s : String) : Fault :=
-  if s == "load" then .load
-  else if s == "verify" then .verify
+  if s == "load" || s.startsWith "load:" || s.startsWith "read:" then .load
+  else if s == "meta" then .metaRead
+  else if s == "rmdir" then .rmdir
+  else if s == "verify" || s == "dropkey" then .verify
   else if s.startsWith "write:" then
     -- write 1 and 2 (header, swamp name) happen while the file is created
     let k := ((s.drop 6).toString.toNat?).getD 3
@@ -31,49 +33,86 @@ def parseFault (s : String) : Fault :=
   else .none
 
 /-- per key: the last value of each chunk that holds it -/
-def candidates (fo : Folder) (k : String) : List String :=
+def candidates (fo : Folder String) (k : String) : List String :=
   fo.filterMap fun f => lastOf f.2 k
 
-def keysOf (fo : Folder) : List String := ((allSegs fo).map (·.key)).eraseDups
+def keysOf (fo : Folder String) : List String := ((allSegs fo).map (·.key)).eraseDups
 
-def uniqueKeys (fo : Folder) : Bool := ((allSegs fo).map (·.key)).eraseDups.length == (allSegs fo).length
+def uniqueKeys (fo : Folder String) : Bool := ((allSegs fo).map (·.key)).eraseDups.length == (allSegs fo).length
+
+/-- byte length of a key / name token: `L<n>x<hash>` for long ones, hex for keys, plain text for names -/
+def longLen? (tok : String) : Option Nat :=
+  if tok.startsWith "L" then
+    match (tok.drop 1).toString.splitOn "x" with
+    | n :: _ :: _ => n.toNat?
+    | _ => none
+  else none
+
+def keyLen (k : String) : Nat := (longLen? k).getD (k.length / 2)
+def nameLen (nm : String) : Nat := (longLen? nm).getD nm.utf8ByteSize
+
+def junkName : String := "\x00junk"
+
+/-- the trivial codec with the V2 writer's limits: keys of 1..65535 bytes, names up to 65535 bytes; a junk file cannot be opened -/
+def drvV2 : V2 String (String × List (Entry String)) :=
+  { (idV2 : V2 String _) with
+    accepts := fun e => 0 < keyLen e.1 && keyLen e.1 ≤ 65535
+    acceptsName := fun nm => nameLen nm ≤ 65535
+    append := fun f es => if f.1 == junkName then none else (idV2 : V2 String _).append f es }
+
+/-- what the harness plants at the target path -/
+def preFile (kind nm : String) (fo : Folder String) : Option (String × List (Entry String)) :=
+  if kind == "valid" then
+    let first := (allSegs fo).head?.map (·.key)
+    let zz : Entry String := ("7a7a2d6f6e6c792d696e2d7632", "pre")          -- hex "zz-only-in-v2"
+    some ("other/swamp/name", match first with
+      | some k => if k != "" && (longLen? k).isNone then [zz, (k, "pre")] else [zz]
+      | none => [zz])
+  else if kind == "stub" then some (if nameLen nm ≤ 65535 then nm else "truncated", [])
+  else if kind == "junk" then some (junkName, [])
+  else none
 
 def step (cfg : MCfg) (_ : Unit) (line : String) : Unit × String :=
   match line.splitOn " | " with
   | [head, nmPart, foPart] =>
     match head.splitOn " " with
-    | ["mig", _, v, d, r, ft] =>
+    | ["mig", _, v, d, r, ft, pre] =>
       let o : Opts := ⟨v == "v=1", d == "d=1", r == "r=1"⟩
       let nm := (nmPart.drop 5).toString
       -- an empty key is written as the empty hex string
       let fo := parseFolder (foPart.drop 7).toString
       let fault := parseFault (ft.drop 6).toString
-      let d0 : Disk (String × List Entry) := { v1 := fo, v1Folder := true, hyd := none }
-      let (res, d1) := migrate cfg idV2 o fault nm d0
+      let hyd0 := preFile (pre.drop 4).toString nm fo
+      let d0 : Disk String (String × List (Entry String)) := { v1 := fo, v1Folder := true, hyd := hyd0 }
+      let (res, d1) := migrate cfg drvV2 o fault nm d0
       let resTxt := match res with
         | .success => "success" | .skippedEmpty => "skipped" | .failed ph => "failed:" ++ ph
       let failed := match res with
         | .failed _ => true
         | _ => false
       let v1Txt := if !d1.v1Folder then "gone" else if d1.v1.length == fo.length then "same" else s!"left:{d1.v1.length}"
+      let kept := hyd0.isSome && d1.hyd == hyd0
       let (hydTxt, loadTxt, nameTxt, loadBad) := match d1.hyd with
         | none => ("0", "none", "na", false)
         | some f =>
-          if failed then ("1", "partial", "partial", true)
+          if kept then ("kept", "none", "na", false)
+          else if failed then ("1", "partial", "partial", true)
           else
             let ks := keysOf fo
             let uniq := uniqueKeys fo
             let okAll := ks.all fun k =>
-              match idV2.loadMap f k with
+              match drvV2.loadMap f k with
               | some x => if uniq then loadV1In fo k == some x else (candidates fo k).contains x
               | none => false
             let extra := f.2.any fun e => !ks.contains e.1
             let bad := !okAll || extra
             ("1", if bad then "DIFF" else if uniq then "match" else "dup-ok",
-             if idV2.nameOf f == nm then "ok" else "BAD", bad)
-      -- Spec: a failure leaves everything as it was; V1 files go only after a success
+             if drvV2.nameOf f == nm then "ok" else "BAD", bad)
+      -- Spec: a failure leaves everything as it was; V1 files go only after a success; a file that was there stays
       let flag :=
-        if failed && d1.hyd.isSome then
+        if hyd0.isSome && !kept then "\t#F:C23-existing-hyd-appended"
+        else if !failed && nameTxt == "BAD" then "\t#F:C23-name-lost-when-meta-unreadable"
+        else if failed && d1.hyd.isSome && !kept then
           (match fault with
            | .write 0 => "\t#F:C23-hyd-left-after-failed-create"
            | .write _ => "\t#F:C23-hyd-left-after-failed-write"
@@ -91,7 +130,8 @@ def run (args : List String) : IO UInt32 := do
   let kv := parseArgs args
   let y := fun k => triYes (arg kv k)
   let cfg : MCfg := ⟨y "dedupeLast", y "verifyBeforeDelete", y "writeBeforeDelete", y "removeOnVerifyFail",
-                     y "removeOnWriteFail", y "removeOnOpenFail", y "emptyKeyIsError", y "verifyValues"⟩
+                     y "removeOnWriteFail", y "removeOnOpenFail", y "emptyKeyIsError", y "metaErrorAborts", y "verifyValues",
+                     y "refusesExisting"⟩
   lineLoop (step cfg) ()
   return 0
 
